@@ -68,6 +68,11 @@ CHECKS = {
   text="All op/3 histories over the alphabet are explored to depth 2 (quick) / 3 (thorough, plus the full alphabet incl. invalid priorities, specifiers and name lists to depth 2); each reached table state is probed completely once: success/error, the whole table through current_op/3 (a failing call must leave it unchanged), current_op/3 in all 8 instantiation patterns for 6 names x all specifiers/priorities, whether prefix/infix/postfix use parses and how it associates, and whether writeq uses operator notation.",
   note="Trusted: ref/optable.go (ISO 8.14.3 / 6.3.4.3). The initial table is read from a fresh instance. Which error a failing op/3 raises is left to C05.",
   design="DESIGN.md §3 C18"),
+ "C19": dict(
+  technique="bounded-exhaustive enumeration of input-operation sequences x source texts x stream kinds x eof_action on real streams (files via open/4, host readers incl. one-byte-at-a-time and data-with-EOF readers), each sequence issued as separate queries and as one conjunction, compared step by step with a reference cursor model; all sequences of output operations to host writer and file",
+  text="Every sequence of up to 3 (quick) / 4 (thorough) operations over the input predicates (character, byte, term, peeks incl. failing peeks, end-of-stream tests, position) is run on 18 sources (incl. multi-byte text and texts whose operations straddle byte 4096 of the buffer), 6 stream configurations and binary files; every observed value must be what a single forward cursor yields: peeks leave the cursor, consecutive reads deliver consecutive input, end_of_file then the eof_action, position = bytes consumed. Output sequences must reach the sink completely and in order.",
+  note="Trusted: the cursor model in checks/c19.go. Whether read_term/3 consumes the layout character after the end token is resolved by observing the implementation once; the outcome for a text that ends inside a term is not asserted.",
+  design="DESIGN.md §3 C19"),
  "C16": dict(
   technique="bounded-exhaustive enumeration of call patterns on the real interpreter against relations computed by brute force: every instantiation pattern the modes admit x every combination of bound values (matching and non-matching), answers compared as multisets; infinite / variable-creating modes against the reference machine",
   text="For each of the 17 predicates the complete relation over a finite domain (multi-byte characters, lists, integers near the 64-bit limits) is enumerated by brute force and every admissible call pattern is compared with the matching subset of the relation, each tuple exactly once - which also yields the monotonicity clause of the property.",
